@@ -56,7 +56,7 @@ def check(ctx):
     sf = q.fn1(P, "CompositeIR::struct_field_tokens", "scale_typegen")
     if sf is not None:
         for node, items, kind, parent in T.find_templates(sf["body"]):
-            text = T.render(items)
+            text = T.render_pos(items)
             m = re.fullmatch(r"#\w+ pub (\w+) : #\w+", text)
             if m and not any(it[0] == "interp" and i == 2 for i, it in enumerate(items)):
                 gen_names.add(m.group(1))
@@ -64,7 +64,7 @@ def check(ctx):
     ex_names = set()
     if fe is not None:
         for node, items, kind, parent in T.find_templates(fe["body"]):
-            text = T.render(items)
+            text = T.render_pos(items)
             m = re.fullmatch(r"(\w+) : :: core :: marker :: PhantomData", text)
             if m:
                 ex_names.add(m.group(1))
@@ -112,7 +112,7 @@ def check(ctx):
             ctx.expect(flags == ["rust_value::has_unused_type_params(P2,P1)?"], "C14.4", "marker-source/structs", site(arms["Composite"]),
                        "struct literals get the marker iff the generator's IR of THIS type has unused parameters", "struct marker flag is %s" % flags)
         if "Tuple" in arms:
-            tt = [T.render(items) for node, items, kind, parent in T.find_templates(arms["Tuple"]["body"])]
+            tt = [T.render_pos(items) for node, items, kind, parent in T.find_templates(arms["Tuple"]["body"])]
             ctx.expect(tt == ["( #( #fields , )* )"] or (len(tt) == 1 and re.fullmatch(r"\( #\( #\w+ , \)\* \)", tt[0])), "C14.5", "tuple-form", site(arms["Tuple"]),
                        "tuple example `( #(#fields,)* )`: the comma is inside the repetition, so a one-element tuple is `(x,)`", "tuple template(s): %s" % tt)
         if "Array" in arms:
@@ -132,7 +132,7 @@ def check(ctx):
                 if a.get("k") == "Lit" and a.get("v") == "Box<":
                     box_users.setdefault(cshort(b["path"]), 0)
                     box_users[cshort(b["path"])] += 1
-    ctx.count("field emitters consulting the Box marker", sum(box_users.values()), 3)
+    ctx.count("field emitters consulting the Box marker", sum(box_users.values()), 2)   # generator (possibly through one helper) + description
     ok = any("fields_example" in f or "rust_value" in f for f in box_users)
     ctx.expect(ok, "C14.8", "box-agreement/fields_example/box-marker-ignored", fe["sp"] if fe else "",
                "the Rust example wraps boxed fields like the generator does",
